@@ -130,3 +130,46 @@ def plant_if_scopes(g):
     if len(outs) >= 2:
         g.features.add("planted:if_scopes")
     return outs or None
+
+
+def plant_overridable_shape_operand(g):
+    """An overridable initializer (initializer that is also a graph input) used as the shape-determining DATA operand of an operator
+    (Reshape target, Expand shape, Tile repeats, ConstantOfShape, Slice bounds, axes, Range limit), followed by shape-only consumers.
+    Whatever the transformation derives from the default value is wrong for the caller's override."""
+    import numpy as np
+    from vf.modelgen import F32, I64
+
+    if g.depth or not g.cfg.get("overridable"):
+        return None
+    a, b = g.pick([1, 2, 3]), g.pick([2, 3, 4])
+    x = g.add_input(g.pick([F32, F32, I64]), (a, b), style="smallint")
+    kind = g.pick(["reshape", "reshape", "expand", "tile", "cos", "slice", "axes", "range"])
+    ov = lambda v: g.const_array(np.asarray(v, dtype=np.int64), how="ovinit")  # noqa: E731
+    c = lambda v: g.const_array(np.asarray(v, dtype=np.int64), how="node")  # noqa: E731
+    if kind == "reshape":
+        r = g.emit("Reshape", [x, ov(g.pick([[b, a], [a, b], [a * b, 1], [-1, a], [1, a, b]]))])
+    elif kind == "expand":
+        r = g.emit("Expand", [x, ov(g.pick([[2, a, b], [a, b], [3, 1, 1]]))])
+    elif kind == "tile":
+        r = g.emit("Tile", [x, ov(g.pick([[1, 2], [2, 1], [3, 2]]))])
+    elif kind == "cos":
+        r = g.emit("ConstantOfShape", [ov(g.pick([[a, b], [b, a], [2, 3, 1]]))])
+    elif kind == "slice":
+        r = g.emit("Slice", [x, ov([0, 0]), ov(g.pick([[a, 1], [1, b], [a, b]])), c([0, 1])])
+    elif kind == "axes":
+        r = g.emit("ReduceSum", [x, ov([g.pick([0, 1, -1])])], keepdims=g.pick([0, 1])) if g.opset >= 13 else None
+    else:
+        r = g.emit("Range", [c(0), ov(g.pick([3, 4, 2])), c(1)])
+    if not r:
+        return None
+    g.features.add("planted:ov_shape_operand:" + kind)
+    outs = list(r)
+    for op in (["Shape", "Size"] if g.chance(5) else ["Shape"]):
+        d = g.emit(op, [r[0]])
+        if d:
+            outs += d
+    if r[0].rank >= 1 and g.chance(5):
+        f = g.emit("Flatten", [r[0]], axis=g.pick([0, 1])) if r[0].rank >= 1 else None
+        if f:
+            outs += f
+    return outs
